@@ -70,10 +70,14 @@ F = {
              "ok 0:0=- 0:1=- 0:2=- 0:3=v:1 0:4=v:1 0:5=- 1:0=v:0") for p in ("C01", "C11")] +
            [("C15", "bound-not-subset", "cfg  | T0: anew 0; aclone 0 1; aclone 0 2; spawn 1; spawn 2; acount 0; acount 0; adrop 0; join 1; join 2 | T1: acount 1; agetmut 1; aunwrap 1; ifeq 1 err:0 1; adrop 1 | T2: acount 2; aunwrap 2; ifeq 1 err:0 1; adrop 2",
              "ok 0:0=- 0:1=- 0:2=- 0:3=- 0:4=- 0:5=v:3 0:6=v:3 0:7=v:0 0:8=- 0:9=- 1:0=v:1 1:1=v:1 1:2=ok:0 2:0=v:2 2:1=err:0 2:3=v:0")]),
- "F20": dict(cls="join-before-tls-destructors",
-   what="JoinHandle::join returns before the joined thread's thread-local destructors have run (the join notification is sent by the spawn wrapper, drop_locals runs afterwards in rt::thread_done): after join the effect of a destructor is not yet visible, which std rules out (thread.rs spawn_internal, rt/mod.rs thread_done)",
-   entries=[("C17", "forbidden", "cfg tlsdtor=1 x=1 | T0: spawn 1; ld 0 rlx; join 1; ld 0 rlx | T1: tls 0",
-             "ok 0:0=- 0:1=v:0 0:2=- 0:3=v:0 1:0=v:11")]),
+ "F23": dict(cls="lazy-init-runs-twice",
+   what="the initialiser of a lazy static runs twice in one execution when two threads race on the first access and the initialiser contains a scheduling point (Lazy::get initialises outside any lock and re-checks afterwards; the loser's value is dropped): side effects of the initialiser happen twice, the surviving instance may be the second one created (src/lazy_static.rs Lazy::get, acknowledged in a comment there)",
+   entries=[("C17", "forbidden", "cfg x=1 | T0: spawn 1; lazy 0; join 1; ld 0 rlx | T1: ld 0 rlx; lazy 0",
+             "ok 0:0=- 0:1=v:240 0:2=- 0:3=v:2 1:0=v:0 1:1=v:240")]),
+ "F24": dict(cls="lazy-access-unbranched",
+   what="the first access to a lazy static is not a branch point and its registration is not a dependence: which of two threads initialises it is explored only when other dependent operations happen to separate the accesses, so executions in which the other thread runs the initialiser (and what its side effects then look like to the first) are never explored (src/lazy_static.rs Lazy::get / try_get)",
+   entries=[("C17", "missing", "cfg x=1 | T0: spawn 1; ld 0 rlx; lazy 0; join 1 | T1: lazy 0",
+             "ok 0:0=- 0:1=v:1 0:2=v:140 0:3=- 1:0=v:140")]),
  "F22": dict(cls="lazy-static-dropped-at-main-exit",
    what="lazy statics are dropped when the main closure returns, not at the end of the iteration: a thread that is still running and touches one afterwards panics 'attempted to access lazy_static during shutdown' (model.rs Builder::check, rt/lazy_static.rs Set::drop)",
    entries=[("C17", "badverdict", "cfg | T0: spawn 1 | T1: lazy 0", "lazyShutdown")]),
@@ -88,11 +92,15 @@ F = {
    what="thread::park tests the token without a branch point and unpark is not a branch point, so the order of an unpark and the token test is explored only when another branch point happens to separate them: outcomes / deadlocks of the other order are never explored (rt/mod.rs park, thread.rs unpark)",
    entries=[(p, "missed_failure", "cfg c=1 | T0: spawn 1; park; crd 0; park; join 1 | T1: unpark 0; unpark 0", "deadlock") for p in ("C01", "C05", "C08")]),
  "F18": dict(cls="unpark-token-cleared",
-   what="a pending park token is cleared when another thread releases a lock the target used earlier: set_runnable on every thread whose stale `operation` names the lock (Mutex::release_lock, RwLock::unlock_threads, Channel::send) -> false deadlock",
+   what="a pending park token is lost when its thread is blocked by another thread's lock acquisition and woken again: the token lives in State::Runnable { unparked } and set_blocked/set_runnable overwrite it (Mutex::post_acquire, RwLock::post_acquire_*) -> false deadlock. (The other way to lose it - a release waking a thread whose stale `operation` names the object - was repaired in 0b04412.)",
    entries=[(p, "badverdict", "cfg m=1 | T0: spawn 1; unpark 1; lock 0; unlock 0; join 1 | T1: lock 0; unlock 0; park", "deadlock") for p in ("C01", "C05", "C08")]),
 }
 
 FIXED = [
+ ("C17", "e931437", "F20 JoinHandle::join returned before the joined thread's thread-local destructors had run (after join, the effect of a destructor was not visible yet); witness cfg tlsdtor=1 x=1 | T0: spawn 1; ld 0 rlx; join 1; ld 0 rlx | T1: tls 0 (forbidden outcome: the load after the join reads 0)"),
+ ("C08", "0b04412", "F18a a release (Mutex::release_lock, RwLock::unlock_threads, Channel::send) reset every thread whose stale `operation` named the object, discarding a pending park token -> false deadlock; witness cfg l=1 | T0: spawn 1; unpark 1; rd 0; unrd 0; join 1 | T1: rd 0; unrd 0; park"),
+ ("C05", "0b04412", "F18a false deadlock: park token discarded by a release through a stale `operation`; witness cfg l=1 | T0: spawn 1; unpark 1; rd 0; unrd 0; join 1 | T1: rd 0; unrd 0; park"),
+ ("C01", "0b04412", "F18a false deadlock (outcome of the reference never reached): park token discarded by a release through a stale `operation`; witness cfg l=1 | T0: spawn 1; unpark 1; rd 0; unrd 0; join 1 | T1: rd 0; unrd 0; park"),
  ("C20", "c00b711", "F8 process abort instead of the deadlock report: the deadlock panic unwinds block_on, whose loom Arc is dropped (Arc::drop -> ref_dec -> branch -> schedule with no active thread -> panic in a destructor); witness cfg x=1 f=1 | T0: blockon 0 1"),
  ("C06", "c00b711", "F8 process abort instead of a panic to the caller when a loom Arc is dropped while a deadlock panic unwinds; witnesses cfg x=1 f=1 | T0: blockon 0 1 and cfg unwind=1 n=1 | T0: anew 0; nwait 0"),
  ("C05", "c00b711", "F8 process abort instead of the deadlock report (block_on with nobody to wake it); witness cfg x=1 f=1 | T0: blockon 0 1"),
